@@ -2,7 +2,7 @@
    Strings are lists of bytes ([ascii]); positions are [nat]. Everything is total and
    computable; the extracted code is run against the repository's preprocessor.cpp on the
    same inputs by harness/props/c17.py. No proofs in this file. *)
-From Coq Require Import List Arith Bool Ascii String Lia.
+From Coq Require Import List Arith Bool Ascii String Lia NArith.
 Import ListNotations.
 
 Definition str := list ascii.
@@ -183,41 +183,56 @@ Fixpoint search (fuel : nat) (name s : str) (rs : ranges) (pos : nat) : option n
 Definition replace_at (s : str) (p len : nat) (body : str) : str :=
   firstn p s ++ body ++ skipn (p + len) s.
 
-(* the inner while loop for one macro after the repair of findings C17-stale-string-ranges and C17-cap-100:
-   every whole-word occurrence outside string literals is replaced, scanning left to right, and the
-   string ranges are recomputed from the current text after each replacement. Each replacement
-   shortens the unscanned remainder by at least |name| >= 1, so fuel S(length s) is never exhausted. *)
-Fixpoint sweep (fuel : nat) (name body s : str) (pos : nat) (changed : bool) : str * bool :=
+(* the inner while loop for one macro (after the repairs of C17-stale-string-ranges, C17-cap-100 and the
+   growth bound): every whole-word occurrence outside string literals is replaced, scanning left to
+   right; the string ranges are recomputed from the current text after each replacement; when the
+   text has grown by more than [max_growth] bytes over the source line the expansion stops with an
+   error (self-referential macros). Each replacement shortens the unscanned remainder by at least
+   |name| >= 1, so fuel S(length s) is never exhausted. *)
+Inductive sres := SGo (s : str) (changed : bool) | SOver (s : str).
+Definition too_large (limit : N) (s : str) : bool := N.ltb limit (N.of_nat (List.length s)).
+
+Fixpoint sweep (fuel : nat) (limit : N) (name body s : str) (pos : nat) (changed : bool) : sres :=
   match fuel with
-  | 0 => (s, changed)
+  | 0 => SGo s changed
   | S f =>
       match search (S (List.length s)) name s (string_ranges s) pos with
-      | None => (s, changed)
-      | Some p => sweep f name body (replace_at s p (List.length name) body) (p + List.length body) true
+      | None => SGo s changed
+      | Some p => let s' := replace_at s p (List.length name) body in
+                  if too_large limit s' then SOver s'
+                  else sweep f limit name body s' (p + List.length body) true
       end
   end.
 
-(* one pass of the for-loop over defines_ *)
-Fixpoint pass (t : table) (s : str) (changed : bool) : str * bool :=
+(* one pass of the for-loop over defines_ (function-like macros and empty names are skipped) *)
+Fixpoint pass (limit : N) (t : table) (s : str) (changed : bool) : sres :=
   match t with
-  | [] => (s, changed)
+  | [] => SGo s changed
   | m :: r =>
-      if mfn m then pass r s changed
+      if mfn m then pass limit r s changed
       else match mname m with
-           | [] => pass r s changed      (* an empty name makes the real loop spin; excluded by the harness *)
-           | _ => let '(s', ch) := sweep (S (List.length s)) (mname m) (mbody m) s 0 changed in pass r s' ch
+           | [] => pass limit r s changed
+           | _ => match sweep (S (List.length s)) limit (mname m) (mbody m) s 0 changed with
+                  | SGo s' ch => pass limit r s' ch
+                  | SOver s' => SOver s'
+                  end
            end
   end.
 
-Fixpoint passes (n : nat) (t : table) (s : str) : str :=
+Fixpoint passes (n : nat) (limit : N) (t : table) (s : str) : str * bool :=
   match n with
-  | 0 => s
-  | S n' => let '(s', ch) := pass t s false in
-            if ch then passes n' t s' else s'
+  | 0 => (s, false)
+  | S n' => match pass limit t s false with
+            | SGo s' ch => if ch then passes n' limit t s' else (s', false)
+            | SOver s' => (s', true)
+            end
   end.
 
 Definition max_iterations := 100.
-Definition expand (t : table) (line : str) : str := passes max_iterations t line.
+Definition max_growth : N := 16384.
+(* result text and "expansion too large" flag *)
+Definition expand (t : table) (line : str) : str * bool :=
+  passes max_iterations (N.of_nat (List.length line) + max_growth)%N t line.
 
 (* ---------- decimal rendering of the line number (std::to_string) ---------- *)
 Definition digit (n : nat) : ascii := ascii_of_nat (48 + n).
@@ -264,7 +279,7 @@ Definition fail_line (live : bool) (c : core) (raw : str) : core :=
 (* lines that do not touch the conditional stack; [live] = !shouldSkipOutput() *)
 Definition plain_step (live : bool) (c : core) (raw : str) (k : pkind) : core :=
   match k with
-  | PText => if live then emit c (expand (tab c) raw) else c
+  | PText => if live then (let '(e, over) := expand (tab c) raw in emit (if over then add_err c else c) e) else c
   | PNop => c
   | PCondBad => fail_line live c raw                           (* processed even while skipping *)
   | PDefine n b fn =>
